@@ -138,12 +138,25 @@ def run_case(c):
             ev['n'] = len(si_prefixes.SI_PREFIXES)
         elif op in ('mul', 'div'):
             x, y = mk_operand(c['x']), mk_operand(c['y'])
+            # the operation is judged on the STORED operands (quantized types round at construction)
+            for name, obj in (('x', x), ('y', y)):
+                if c[name]['kind'] == 'q':
+                    v = vec(obj.amount) if obj.amount != 0 else None
+                    if v is None:
+                        ev['skip'] = True
+                    else:
+                        ev[name] = dict(c[name], a=dict(sg=v['sg'], ex=v['ex']))
+            if ev.get('skip'):
+                return ev
             try:
                 ev['res'] = proj(x * y if op == 'mul' else x / y)
             except Exception as exc:
                 ev['res'] = proj(exc)
         elif op == 'pow':
             x = mk_operand(c['x'])
+            if c['x']['kind'] == 'q' and x.amount != 0:
+                v = vec(x.amount)
+                ev['x'] = dict(c['x'], a=dict(sg=v['sg'], ex=v['ex']))
             try:
                 ev['res'] = proj(x ** c['n'])
             except Exception as exc:
